@@ -52,6 +52,9 @@ Definition s_quot (m : rounding) (n d : Z) : Z :=
 Fixpoint s_chain (rel : Z * Z -> Z * Z -> bool) (a : Z * Z) (rest : list (Z * Z)) : bool :=
   match rest with [] => true | b :: rest' => rel a b && s_chain rel b rest' end.
 
+(* identities of the bitwise operations: (logand) = -1, (logior) = (logxor) = 0 *)
+Definition bit_unit (b : bitop) : Z := match b with BAnd => -1 | _ => 0 end.
+
 Definition s_op (o : opn) (qs : list (Z * Z)) : res :=
   let ints := forallb (fun q => snd q =? 1) qs in
   match o, qs with
@@ -79,6 +82,9 @@ Definition s_op (o : opn) (qs : list (Z * Z)) : res :=
   | ODec, [a] => RVal (canon (fst a - snd a) (snd a))
   | OGcd, _ => if ints then RVal (canon_int (fold_left Z.gcd (map fst qs) 0)) else RCond CType
   | OLcm, _ => if ints then RVal (canon_int (fold_left Z.lcm (map fst qs) 1)) else RCond CType
+  | OBit b, _ => if ints then RVal (canon_int (fold_left (bit_z b) (map fst qs) (bit_unit b)))
+                 else RCond CType
+  | OLognot, [a] => if snd a =? 1 then RVal (canon_int (Z.lnot (fst a))) else RCond CType
   | OCmp c, a :: rest =>
       RBool (match c with
              | CLt => s_chain qlt a rest
@@ -108,6 +114,9 @@ Definition exact_pairs (args : list val) : bool :=      (* no adjacent pair goes
   (fix go a rest := match rest with [] => true | b :: rest' => negb (inexact_pair a b) && go b rest' end)
     (hd VInexact args) (tl args) && forallb canonical args.
 
+Definition all_int (args : list val) : bool :=
+  forallb (fun v => match v with VFix z => in64 z | VBig _ => true | _ => false end) args.
+
 Definition in_domain (o : opn) (args : list val) : bool :=
   match o with
   | OAdd => all_fix args && prefixes_in64 Z.add 0 (fixes args)
@@ -128,5 +137,42 @@ Definition in_domain (o : opn) (args : list val) : bool :=
                                 | _ => false end
   | OMod | ORem => all_fix args && match fixes args with [n; d] => negb (d =? 0) | _ => false end
   | OCmp _ => (1 <=? Z.of_nat (length args)) && exact_pairs args
+  (* bitwise operations: integers only; once a bignum takes part the result is a bignum object, which is
+     the canonical form only when the exact result does not fit in 64 bits *)
+  | OBit b => all_int args && (all_fix args || negb (in64 (fold_left (bit_z b) (map as_int args) (bit_unit b))))
+  | OLognot => match args with [VFix z] => in64 z | [VBig z] => negb (in64 (Z.lnot z)) | _ => false end
   | ODiv | OGcd | OLcm => false     (* covered by correspondence and by S as a judge, no theorem *)
+  end.
+
+(* ---- a second, wider domain for the rounding divisions: operands of any representation the
+   implementation can hold (a bignum object may hold a small value, a ratio any positive denominator),
+   at least one of them a bignum or a ratio, divisor not zero, and no bignum beyond 64 bits paired with
+   a ratio.  There the model is proved to return the exact VALUES (ProofsRound.v); the representation
+   of the results (always bignum / ratio objects) is not the canonical one. ---- *)
+Definition wf (v : val) : bool :=
+  match v with VFix z => in64 z | VBig _ => true | VRat _ d => 0 <? d | VInexact => false end.
+Definition kind_exact (k : kind) : bool := match k with KBig | KRat => true | _ => false end.
+Definition round_value_domain (args : list val) : bool :=
+  forallb wf args &&
+  match args with
+  | [n; d] => negb (as_num d =? 0) && kind_exact (norm_kind n d)
+  | [n] => kind_exact (norm_kind n (VFix 1))
+  | _ => false
+  end.
+(* the same for mod and rem: integers, at least one bignum object *)
+Definition modrem_value_domain (args : list val) : bool :=
+  forallb wf args &&
+  match args with
+  | [n; d] => negb (as_num d =? 0) && match norm_kind n d with KBig => true | _ => false end
+  | _ => false
+  end.
+
+(* the domain of the value-level theorem: operations whose bignum / ratio paths return exact values in
+   a non-canonical representation *)
+Definition value_domain (o : opn) (args : list val) : bool :=
+  match o with
+  | ORound _ => round_value_domain args
+  | OMod | ORem => modrem_value_domain args
+  | OBit _ => all_int args
+  | _ => false
   end.
